@@ -1,5 +1,6 @@
 (* C08 — caches actually memoise: hits run nothing upstream, LRU stays bounded, shards partition. *)
-From Connectome Require Import Values Attrs VM Edges EdgesGen Store MiscGen StoreFacts Lru.
+From Connectome Require Import Values Attrs VM Edges EdgesGen Store MemGen ShardGen StoreFacts Lru.
+From Connectome Require NodeHashGen.
 From Connectome Require ColStore ColumnsGen Columns ColumnsFacts EqFacts.
 Local Open Scope list_scope.
 
@@ -89,3 +90,12 @@ Proof.
   exact (ColumnsFacts.column_shard_hits hpyeq heqb pyeq sorted get_hash get_value h v EqFacts.hpyeq_refl EqFacts.heqb_eq H1 H2 H3 H4).
 Qed.
 Print Assumptions C08_column_shard_hits.
+
+(* The node-hash values this file reasons about are the ones engine/node_hash.py builds (regenerated, Gen/NodeHashGen.v):
+   tags 0-3 for leaf / apply / graph / custom, the components of each `value` tuple in order, and == on `value`. *)
+Theorem C08_node_hash_values_are_translated :
+  NodeHashGen.hash_tags = [0; 1; 2; 3] /\ NodeHashGen.LeafHash_value = ["tag"; "data"]
+  /\ NodeHashGen.ApplyHash_value = ["tag"; "func"; "args.value"; "kw_names"] /\ NodeHashGen.GraphHash_value = ["tag"; "output.value"]
+  /\ NodeHashGen.CustomHash_value = ["tag"; "marker"; "*children.value"] /\ NodeHashGen.nodehash_eq_compares = "value".
+Proof. repeat split; reflexivity. Qed.
+Print Assumptions C08_node_hash_values_are_translated.
